@@ -404,7 +404,29 @@ def p_spaces(rng, src, state):
     return '\n'.join(lines)
 
 
+def p_colon_space(rng, src, state):
+    """Whitespace (or a line continuation) in front of the ':' that ends a block header: 'try  :', 'else :', 'if x\t:'."""
+    tk = try_toks(src)
+    if not tk:
+        return None
+    cands = []
+    prev = None
+    for t, depth, fd in _depth_tokens(tk):
+        if prev is not None and not fd and depth == 0 and t.type == tokenize.OP and t.string == ':' and prev.end == t.start \
+                and prev.type in (tokenize.NAME, tokenize.OP, tokenize.NUMBER, tokenize.STRING):
+            cands.append(t)
+        prev = t
+    if not cands:
+        return None
+    t = rng.choice(cands)
+    lines = src.split('\n')
+    ln = t.start[0] - 1
+    lines[ln] = lines[ln][:t.start[1]] + rng.choice([' ', '  ', '\t', '   ', ' \\\n' + ' ' * rng.randint(0, 6)]) + lines[ln][t.start[1]:]
+    return '\n'.join(lines)
+
+
 PERTURBATIONS = {
+    'colon_space': p_colon_space,
     'trailing_comment': p_trailing_comment,
     'ownline_comment': p_ownline_comment,
     'blank_line': p_blank_line,
